@@ -49,6 +49,9 @@ type Channel struct {
 	CurrentHeaderType PacketHeaderType
 	// curPacketNr is the number of the next packet being sent
 	curPacketNr int
+	// txMsgOpen is true while packets of the current message have been
+	// sent and none of them carried the EOM status.
+	txMsgOpen bool
 	// window is the amount of buffers transmitted between ACKs
 	window int
 
@@ -538,6 +541,16 @@ func (tdsChan *Channel) sendPackets(ctx context.Context, onlyFull bool) error {
 		}
 	}
 
+	if !onlyFull && tdsChan.txMsgOpen {
+		// All packets of the message were exhausted and have been sent
+		// without the EOM status - terminate the message with an empty
+		// packet.
+		eom := NewPacket(PacketHeaderSize)
+		if err := tdsChan.sendPacket(eom); err != nil {
+			return fmt.Errorf("error sending packet %s: %w", eom, err)
+		}
+	}
+
 	return nil
 }
 
@@ -566,6 +579,8 @@ func (tdsChan *Channel) sendPacket(packet *Packet) error {
 		return fmt.Errorf("expected to write %d bytes for packet, wrote %d instead",
 			int(packet.Header.Length)+PacketHeaderSize, n)
 	}
+
+	tdsChan.txMsgOpen = packet.Header.Status&TDS_BUFSTAT_EOM != TDS_BUFSTAT_EOM
 
 	return nil
 }
